@@ -256,20 +256,33 @@ Qed.
 Print Assumptions C20_env_decode_is_decimal.
 
 (* if the engine gets a watcher at all, it is the watcher model run with the
-   numbers the four texts say (seconds for the three durations) *)
+   numbers the four texts say (seconds for the three durations).
+   [secs_fit x] = [Z.abs x <= 9223372036]: the seconds fit a time.Duration.  Go
+   computes time.Second * time.Duration(raw) in int64, which wraps beyond that
+   (~292 years); Settings.settings_of wraps likewise ([seconds]), so the
+   hypothesis is needed — C20_env_seconds_fit_exactly, C20_env_overflow_example *)
 Theorem C20_env_runs_configured : forall ts t0 script tr,
   run_env Decimal ts t0 script = Some tr ->
   exists c, tr = run c init t0 script /\
-    (forall x, reads_decimal (t_i ts) x -> cI c = x * second) /\
+    (forall x, reads_decimal (t_i ts) x -> secs_fit x -> cI c = x * second) /\
     (forall x, reads_decimal (t_n ts) x -> cN c = x) /\
-    (forall x, reads_decimal (t_p ts) x -> cP c = x * second) /\
-    (forall x, reads_decimal (t_c ts) x -> cC c = x * second).
+    (forall x, reads_decimal (t_p ts) x -> secs_fit x -> cP c = x * second) /\
+    (forall x, reads_decimal (t_c ts) x -> secs_fit x -> cC c = x * second).
 Proof.
   intros ts t0 script tr H.
   destruct (run_env_some _ _ _ _ _ H) as (c & Hc & ->).
   exists c. split; [reflexivity|]. exact (settings_of_decimal ts c Hc).
 Qed.
 Print Assumptions C20_env_runs_configured.
+
+(* the Duration built from [x] seconds is [x * second] exactly when the seconds
+   fit ([x] any number strconv.Atoi returns) *)
+Theorem C20_env_seconds_fit_exactly : forall x,
+  in_int64 x = true -> (seconds x = x * second <-> secs_fit x).
+Proof.
+  intros x I. split; [exact (seconds_fit_only x I)|exact (seconds_fit x)].
+Qed.
+Print Assumptions C20_env_seconds_fit_exactly.
 
 Theorem C20_env_alternate : forall v ts t0 script tr,
   run_env v ts t0 script = Some tr ->
@@ -286,7 +299,7 @@ Print Assumptions C20_env_alternate.
 Definition env_stable_before_fire (v : reading) : Prop :=
   forall ts t0 script tr n p pre e post,
   run_env v ts t0 script = Some tr ->
-  reads_decimal (t_n ts) n -> reads_decimal (t_p ts) p ->
+  reads_decimal (t_n ts) n -> reads_decimal (t_p ts) p -> secs_fit p ->
   tr = pre ++ e :: post -> e_fire e = true ->
   exists pre1 r f,
     pre = pre1 ++ f :: r /\
@@ -296,9 +309,9 @@ Definition env_stable_before_fire (v : reading) : Prop :=
 
 Theorem C20_env_stable_before_fire : env_stable_before_fire Decimal.
 Proof.
-  intros ts t0 script tr n p pre e post H Rn Rp Htr F.
+  intros ts t0 script tr n p pre e post H Rn Rp Fp Htr F.
   destruct (C20_env_runs_configured _ _ _ _ H) as (c & Hrun & _ & Hn & Hp & _).
-  rewrite <- (Hn n Rn), <- (Hp p Rp).
+  rewrite <- (Hn n Rn), <- (Hp p Rp Fp).
   apply (C20_stable_before_fire c t0 script pre e post); [congruence|exact F].
 Qed.
 Print Assumptions C20_env_stable_before_fire.
@@ -309,15 +322,15 @@ Definition env_cooldown_silent (v : reading) : Prop :=
   forall ts t0 script tr cd pre e post,
   Forall item_ok script ->
   run_env v ts t0 script = Some tr ->
-  reads_decimal (t_c ts) cd ->
+  reads_decimal (t_c ts) cd -> secs_fit cd ->
   tr = pre ++ e :: post -> e_fire e = true -> e_obs e = false ->
   Forall (fun e' => e_at e + Z.max (cd * second) 0 <= e_at e') post.
 
 Theorem C20_env_cooldown_silent : env_cooldown_silent Decimal.
 Proof.
-  intros ts t0 script tr cd pre e post Hok H Rc Htr F Ho.
+  intros ts t0 script tr cd pre e post Hok H Rc Fc Htr F Ho.
   destruct (C20_env_runs_configured _ _ _ _ H) as (c & Hrun & _ & _ & _ & Hc).
-  rewrite <- (Hc cd Rc).
+  rewrite <- (Hc cd Rc Fc).
   apply (C20_cooldown_silent c t0 script pre e post Hok); [congruence|exact F|exact Ho].
 Qed.
 Print Assumptions C20_env_cooldown_silent.
@@ -334,7 +347,7 @@ Proof.
               oct_stable_run
               ltac:(exists [], false, [2]; repeat split;
                     [constructor|discriminate|repeat constructor; unfold is_dec_digit; lia])
-              txt_010_says_10 eq_refl eq_refl)
+              txt_010_says_10 ten_fits eq_refl eq_refl)
     as (pre1 & r & f & Hpre & _ & _ & Hp).
   assert (Hin : In f [oct_e0; oct_e1]) by (rewrite Hpre; apply in_elt).
   destruct Hin as [<-|[<-|[]]]; vm_compute in Hp; apply Hp; reflexivity.
@@ -348,7 +361,7 @@ Theorem C20_env_cooldown_silent_autodetect_full_refuted :
 Proof.
   intros H.
   pose proof (H oct_cool_ts 0 oct_cool_script _ 10 [oct_c0] oct_c1 [oct_c2]
-                oct_cool_script_ok oct_cool_run txt_010_says_10 eq_refl eq_refl eq_refl) as F.
+                oct_cool_script_ok oct_cool_run txt_010_says_10 ten_fits eq_refl eq_refl eq_refl) as F.
   inversion F as [|? ? Hle _]; subst. vm_compute in Hle. apply Hle; reflexivity.
 Qed.
 Print Assumptions C20_env_cooldown_silent_autodetect_full_refuted.
@@ -386,15 +399,39 @@ Proof. vm_compute. split; reflexivity. Qed.
 Example C20_env_fires_somewhere :
   let ts := Texts [49] [50] [48;49;48] [48;51;48;48] in
   let script := repeat (It false 0 0 0) 11 ++ repeat (It true 0 0 0) 12 in
-  reads_decimal (t_p ts) 10 /\ Forall item_ok script /\
+  reads_decimal (t_p ts) 10 /\ secs_fit 10 /\ Forall item_ok script /\
   option_map reactions (run_env Decimal ts 0 script)
   = Some [(false, 10 * second); (true, 321 * second)] /\
   option_map reactions (run_env AutoDetect ts 0 script)
   = Some [(false, 8 * second); (true, 211 * second)] /\
   run_env Decimal (Texts [49] [50] [32;49;48] [48]) 0 script = None.
 Proof.
-  split; [exact txt_010_says_10|]. split; [|vm_compute; repeat split; reflexivity].
+  split; [exact txt_010_says_10|]. split; [exact ten_fits|].
+  split; [|vm_compute; repeat split; reflexivity].
   repeat constructor; cbn; lia.
+Qed.
+
+(* [secs_fit] is needed: a stable period of "9223372037" s (one second more
+   than fits a Duration) wraps to a negative Duration in Go and here, and the
+   outage is reported at the second check, 1 s old; "9223372036" still fits
+   (nothing fires within the script) *)
+Example C20_env_overflow_example :
+  let script := repeat (It false 0 0 0) 3 in
+  let big := [57;50;50;51;51;55;50;48;51;55] in
+  let most := [57;50;50;51;51;55;50;48;51;54] in
+  decode Decimal big = Some 9223372037 /\ ~ secs_fit 9223372037 /\
+  option_map (fun c => cP c) (settings_of Decimal (Texts [49] [50] big [48]))
+  = Some (-9223372036709551616) /\
+  option_map reactions (run_env Decimal (Texts [49] [50] big [48]) 0 script)
+  = Some [(false, 1 * second)] /\
+  secs_fit 9223372036 /\
+  option_map reactions (run_env Decimal (Texts [49] [50] most [48]) 0 script) = Some [].
+Proof.
+  cbv zeta. split; [vm_compute; reflexivity|].
+  split; [unfold secs_fit; cbn; lia|].
+  split; [vm_compute; reflexivity|].
+  split; [vm_compute; reflexivity|].
+  split; [unfold secs_fit; cbn; lia|vm_compute; reflexivity].
 Qed.
 
 (* ---- non-vacuity ---- *)
@@ -429,10 +466,32 @@ Proof. vm_compute. reflexivity. Qed.
 
 (* the hypothesis of C20_brief_never_fires is satisfiable by a script with long
    runs: 5 equal observations 1 apart never span a stable period of 10 *)
+Definition brief_cfg : cfg := {| cN := 2; cP := 10; cI := 1; cC := 0 |}.
+Definition brief_script : list item :=
+  map of_pair [(false,0); (false,0); (false,0); (false,0); (false,0); (true,0)].
 Example C20_brief_example :
-  reactions (run_pairs {| cN := 2; cP := 10; cI := 1; cC := 0 |} init 0
-               [(false,0); (false,0); (false,0); (false,0); (false,0); (true,0)]) = [].
-Proof. vm_compute. reflexivity. Qed.
+  (* the premise of C20_brief_never_fires holds on this script ... *)
+  (forall pre1 f r e post,
+     run brief_cfg init 0 brief_script = pre1 ++ f :: r ++ e :: post ->
+     Forall (fun x => e_obs x = e_obs e) (f :: r) ->
+     e_at e - e_at f < cP brief_cfg) /\
+  (* ... which has a run of 5 >= max(N,2) equal observations (so it is not an
+     instance of C20_flap_never_fires) ... *)
+  map i_obs brief_script = [false; false; false; false; false; true] /\
+  (* ... and nothing fires *)
+  reactions (run brief_cfg init 0 brief_script) = [].
+Proof.
+  split; [|split; vm_compute; reflexivity].
+  intros pre1 f r e post H _.
+  assert (B : Forall (fun x => 0 <= e_at x <= 5) (run brief_cfg init 0 brief_script)).
+  { set (tr := run brief_cfg init 0 brief_script). vm_compute in tr. subst tr.
+    repeat constructor; cbn [e_at]; lia. }
+  rewrite H, Forall_forall in B.
+  assert (Hf : 0 <= e_at f <= 5) by (apply B, in_elt).
+  assert (He : 0 <= e_at e <= 5).
+  { apply B. rewrite app_comm_cons, app_assoc. apply in_elt. }
+  cbn [cP brief_cfg]. lia.
+Qed.
 
 (* a hang of an hour only delays, and a failing reaction leaves the policies as
    they were: outage (diagnosis dropped), recovery after a check that hung, its
